@@ -9,6 +9,7 @@ and every value placed in the destination is checked with the independent runtim
 A second part removes the same-named source field: creation must fail with ProviderNotFoundError unless the
 destination field has a default and an allow_unlinked_optional policy selects it.
 """
+import collections
 import copy
 import linecache
 from collections import Counter, OrderedDict, defaultdict
@@ -102,9 +103,30 @@ POOL = [
     ANY, OBJECT, tM, tM2, tSub, ("GModel", "G", INT), ("GModel", "G", STR),
     ("NewType", "UserId", INT), ("Literal", 1), ("Annotated", INT, "x"),
     ("DefaultDict", STR, INT), ("OrderedDict", STR, INT), ("Counter", STR), ("Deque", INT),
+    # abstract spellings: their values are deliberately NOT of the concrete class a destination needs
+    ("Mapping", STR, INT), ("MutableMapping", STR, INT), ("Sequence", INT), ("Iterable", INT),
 ]
 # simplest first
 POOL_INDEX = {ts: i for i, ts in enumerate(POOL)}
+
+
+class ROMap(collections.abc.Mapping):
+    """a Mapping that is not a dict (what a field annotated Mapping[...] may legitimately hold)"""
+
+    def __init__(self, d):
+        self._d = dict(d)
+
+    def __getitem__(self, k):
+        return self._d[k]
+
+    def __iter__(self):
+        return iter(self._d)
+
+    def __len__(self):
+        return len(self._d)
+
+    def __repr__(self):
+        return f"ROMap({self._d!r})"
 
 
 def values_of(ts):  # noqa: C901, PLR0911, PLR0912
@@ -122,6 +144,12 @@ def values_of(ts):  # noqa: C901, PLR0911, PLR0912
         return [None]
     if head in ("Any", "object"):
         return [7, "x"]
+    if head in ("Sequence", "Iterable"):
+        return [tuple(values_of(ts[1])), ()]
+    if head == "Mapping":
+        return [ROMap({k: v for k, v in zip(values_of(ts[1]), values_of(ts[2]))}), ROMap({})]
+    if head == "MutableMapping":
+        return [collections.UserDict({k: v for k, v in zip(values_of(ts[1]), values_of(ts[2]))}), collections.UserDict()]
     if head in R.ITER_IMPL:
         inner = values_of(ts[1])
         if head in ("Set", "FrozenSet"):
